@@ -255,6 +255,10 @@ def hostile(run, tier):
     for nm in names[:4] + [names[-1], "../../../escaped_rel", "../../../../escaped_deep/x"]:
         for cfg in ({"generate_all_tags": True}, {"generate_all_tags": True, "use_path_prefixes_for_title_model_names": False}):
             variants.append((nm, "none" if tier == "quick" else "poetry", cfg, ["pets", nm, "@ROOT@/abs_escape", "admin"]))
+    # names that reach the file system from the CONFIGURATION: class_overrides (class and module names of a benign schema)
+    for h in names[:5] + ["../../../escaped_rel", "sub/dir/mod", "pkg.mod"]:
+        variants.append(("Pet", "none", {"class_overrides": {"Pet": {"module_name": h}}}, ["pets"]))
+        variants.append(("Pet", "none" if tier == "quick" else "poetry", {"class_overrides": {"Pet": {"class_name": h, "module_name": h}, "PetPet": {"module_name": h + "2"}}}, ["pets"]))
     for nm, meta, cfg, tags in variants:
         if True:
             doc = impl.base_doc(info={"title": nm, "version": "1"},
